@@ -595,11 +595,13 @@ void MD_Channel::set_vol_fm3()
 	int mask = get_platform_var(EVENT_FM3);
 	for(int op=3; op>=0; op--)
 	{
-		uint8_t max_tl = driver->fm3_tl[op];
+		int max_tl = driver->fm3_tl[op];
 		if(op >= opn_con_op[driver->fm3_con])
 			max_tl += vol;
 		if(max_tl > 127)
 			max_tl = 127;
+		else if(max_tl < 0)
+			max_tl = 0;
 		if(fm3_op_mask[op] & ~mask)
 			driver->ym2612_w(0, 0x40, 2, op, max_tl);
 	}
@@ -821,11 +823,13 @@ void MD_FM::v_set_vol()
 
 	for(int op=3; op>=0; op--)
 	{
-		uint8_t max_tl = tl[op];
+		int max_tl = tl[op];
 		if(op >= opn_con_op[con])
 			max_tl += vol;
 		if(max_tl > 127)
 			max_tl = 127;
+		else if(max_tl < 0)
+			max_tl = 0;
 		driver->ym2612_w(bank, 0x40, id, op, max_tl);
 	}
 }
